@@ -354,6 +354,52 @@ def run(repo, rep, tier):
                     'remove_server does not delete exactly the instances of '
                     'the three owned lists (subscriptions first)')
 
+    # ---- R2c: what a _create_* function returns is this manager's own ----
+    # Under `owned`, a returned instance either was just created (and is
+    # appended to the owned list) or is taken from the owned list; a loop
+    # variable over the server-wide enumeration must never be returned (it
+    # may belong to another manager or be a permanent instance).
+    for cname, lst in lists.items():
+        f = mgr.methods[cname]
+        server_lists = set()
+        for n in walk_no_nested(f.node):
+            if isinstance(n, ast.Assign) and len(n.targets) == 1 and \
+                    isinstance(n.targets[0], ast.Name) and \
+                    isinstance(n.value, ast.Call) and \
+                    (dotted(n.value.func) or '').split('.')[-1] in (
+                        'EnumerateInstances', 'EnumerateInstanceNames',
+                        'Associators', 'References', 'ExecQuery'):
+                server_lists.add(n.targets[0].id)
+        loopvars = {}
+        for n in walk_no_nested(f.node):
+            if isinstance(n, ast.For) and isinstance(n.target, ast.Name):
+                loopvars.setdefault(n.target.id, []).append(n)
+        for ret in [n for n in walk_no_nested(f.node)
+                    if isinstance(n, ast.Return) and n.value is not None]:
+            if not isinstance(ret.value, ast.Name):
+                continue
+            v = ret.value.id
+            encl = [lp for lp in loopvars.get(v, [])
+                    if any(x is ret for x in ast.walk(lp))]
+            if not encl:
+                continue
+            r2.sites += 1
+            src = norm(encl[-1].iter)
+            ok = src.startswith(lst)
+            foreign = isinstance(encl[-1].iter, ast.Name) and \
+                encl[-1].iter.id in server_lists
+            r2.ob(ok, '%s:return-origin' % cname,
+                  {'function': cname, 'returns': v, 'iterates': src,
+                   'owned_list': lst})
+            if not ok:
+                rep.finding(r2, f.qualname, 'return %s' % v,
+                            'foreign-instance-returned', SM, ret.lineno,
+                            'the reuse lookup returns an element of %s%s '
+                            'instead of %s: an instance owned by another '
+                            'subscription manager (or a permanent one) is '
+                            'handed out and used as if this manager owned it'
+                            % (src, ' (the server-wide enumeration)'
+                               if foreign else '', lst))
     # ---- R3 ---------------------------------------------------------------
     for rname, pvar in (('remove_destinations', 'dest_path'),
                         ('remove_filter', 'filter_path')):
